@@ -46,11 +46,18 @@ def entryType : Bytes := (Nuts.Facts.C03.fsEntryTypes.head?).getD []
 
 structure St where
   store : Store := {}
+  nonEC : List Nat := []     -- key pairs that are not ECDSA keys (planted RSA / Ed25519 keys)
 
 def kres {α} (r : KRes α) (f : α → String) : String :=
   match r with
   | .ok a => "ok" ++ f a
   | .error e => "err:" ++ e.name
+
+/-- outcome + the engine-worded error text -/
+def kresT {α} (s : Store) (q : Req) (r : KRes α) (f : α → String) : String :=
+  match r with
+  | .ok a => "ok" ++ f a
+  | .error e => "err:" ++ e.name ++ (match errText "$KEYDIR" s q e with | some t => " err=\"" ++ t ++ "\"" | none => "")
 
 def showAudit (l : List (String × String)) : String :=
   " audit=[" ++ String.intercalate ";" (l.map fun p => p.1 ++ ":" ++ p.2) ++ "]"
@@ -112,32 +119,34 @@ def step (st : St) (j : Json) : St × List String :=
     | some false => (st, ["vaultuse res=invalid-key-id,invalid-key-id/false,invalid-key-id/false,invalid-key-id paths=[] left=0"])
     | none => (st, ["vaultuse model-not-applicable"])
   -- key store state machine
-  | "reset" => ({ store := {} }, ["reset"])
+  | "reset" => ({ store := {}, nonEC := [] }, ["reset"])
   | "new" =>
     let naming := if jHas j "kid" && (j.getObjVal? "kid").toOption != some Json.null then some (jStr j "kid") else none
     let (s', r) := new s (jStr j "keyName") naming
-    ({ store := s' }, ["new " ++ (match r with
+    ({ st with store := s' }, ["new " ++ (match r with
       | .ok (kid, ref, k) => s!"ok kid={kid} name={ref.keyName} ver={ref.version} key=K{k}"
       | .error e => s!"err:{e.name} key=K{s.nextKey}") ++ showAudit (auditOf validStr s (.op (.new (jStr j "keyName") naming)))])
   | "link" =>
     let (s', r) := link s (jStr j "kid") (jStr j "keyName") (jStr j "version")
-    ({ store := s' }, ["link " ++ kres r (fun _ => "") ++ showAudit []])
+    ({ st with store := s' }, ["link " ++ kresT s (.op (.link (jStr j "kid") (jStr j "keyName") (jStr j "version"))) r (fun _ => "") ++ showAudit []])
   | "delete" =>
     let (s', r) := delete validStr s (jStr j "kid")
-    ({ store := s' }, ["delete " ++ kres r (fun _ => "") ++ showAudit (auditOf validStr s (.op (.delete (jStr j "kid"))))])
-  | "migrate" => ({ store := migrate s }, ["migrate ok" ++ showAudit []])
+    ({ st with store := s' }, ["delete " ++ kresT s (.op (.delete (jStr j "kid"))) r (fun _ => "") ++ showAudit (auditOf validStr s (.op (.delete (jStr j "kid"))))])
+  | "migrate" => ({ st with store := migrate s }, ["migrate ok" ++ showAudit []])
   | "plant" =>
     match wSave validStr s (jStr j "keyName") with
-    | .ok (s', k) => ({ store := s' }, [s!"plant ok key=K{k}"])
-    | .error e => (st, ["plant err:" ++ e.name])
-  | "sign" => (st, [s!"sign {jStr j "how"} " ++ kres (signKey validStr s (jStr j "kid")) (fun k => s!" verifies=[K{k}]")
+    | .ok (s', k) => ({ store := s', nonEC := if jStr j "ktype" == "ec" || jStr j "ktype" == "" then st.nonEC else k :: st.nonEC },
+        [s!"plant ok key=K{k}"])
+    | .error e => (st, ["plant " ++ kresT s (.op (.save (jStr j "keyName"))) (.error e : KRes Unit) (fun _ => "")])
+  | "sign" => (st, [s!"sign {jStr j "how"} " ++ kresT s (.sign (jStr j "how") (jStr j "kid") "" "") (signKey validStr s (jStr j "kid")) (fun k => s!" verifies=[K{k}]")
       ++ showAudit (auditOf validStr s (.sign (jStr j "how") (jStr j "kid") (jStr j "iss") (jStr j "sub")))])
-  | "resolve" => (st, ["resolve " ++ kres (resolve validStr s (jStr j "kid")) (fun k => s!" key=K{k}") ++ showAudit []])
+  | "resolve" => (st, ["resolve " ++ kresT s (.resolve (jStr j "kid")) (resolve validStr s (jStr j "kid")) (fun k => s!" key=K{k}") ++ showAudit []])
   | "exists" => (st, [s!"exists {keyExists s (jStr j "kid")}"])
   | "list" => (st, [s!"list [{String.intercalate "," (sortStrs (list s))}]"])
   | "files" => (st, [s!"files [{String.intercalate "," (sortStrs (s.backend.map (·.1)))}]"])
-  | "decrypt" => (st, ["decrypt " ++ kres (decrypt validStr s (jStr j "kid") (jNat j "encFor")) (fun _ => "") ++ showAudit []])
-  | "decryptjwe" => (st, ["decryptjwe " ++ kres (decryptJWE validStr s (jStr j "kid") (jNat j "encFor")) (fun _ => "")
+  | "decrypt" => (st, ["decrypt " ++ kresT s (.decrypt (jStr j "kid") (jNat j "encFor"))
+      (decrypt validStr s (jStr j "kid") (jNat j "encFor") (fun k => !st.nonEC.contains k)) (fun _ => "") ++ showAudit []])
+  | "decryptjwe" => (st, ["decryptjwe " ++ kresT s (.decryptJWE (jStr j "kid") (jNat j "encFor")) (decryptJWE validStr s (jStr j "kid") (jNat j "encFor")) (fun _ => "")
       ++ showAudit (auditOf validStr s (.decryptJWE (jStr j "kid") (jNat j "encFor")))])
   -- headers
   | "signjws" =>
